@@ -186,7 +186,9 @@ def _needs_fix(m):
                 return True
         else:
             k = _ATOMS[a].kind
-            if (k == "R" or k == "Abs") and (e > 1 or e < 0):
+            if k == "R" and (e > 1 or e < -1):
+                return True
+            if k == "Abs" and (e > 1 or e < 0):
                 return True
             if k == "Inv" and e < 0:
                 return True
@@ -521,9 +523,13 @@ def _fix_mono(m, c):
             continue
         at = _ATOMS[a]
         if at.kind == "R":
-            q, r = divmod(e, 2)
+            # sqrt(u)^e = u^q * sqrt(u)^r with r in {-1,0,1} of the sign of e (1/sqrt(u) is kept as R^-1)
+            if e >= 0:
+                q, r = divmod(e, 2)
+            else:
+                q, r = -((-e) // 2), -((-e) % 2)
             if r:
-                rest.append((a, 1))
+                rest.append((a, r))
             if q > 0:
                 extra = extra * at.args[0] ** q
             elif q < 0:
@@ -622,16 +628,20 @@ def is_nonneg(p):
 
 
 def _is_modsq(p):
-    """p == |c + t|^2 for a rational c and one of its own terms t (certificate checked by multiplication)."""
+    return _modsq_witness(p) is not None
+
+
+def _modsq_witness(p):
+    """w = c + t with p == w * conj(w) for a rational c and one of p's own terms t (checked by multiplication), or None."""
     if not (3 <= len(p.t) <= 4) or () not in p.t:
-        return False
+        return None
     c0 = p.t[()]
     if c0 <= 0:
-        return False
+        return None
     cf = Fr(c0)
     rn, rd = math.isqrt(cf.numerator), math.isqrt(cf.denominator)
     if rn * rn != cf.numerator or rd * rd != cf.denominator:
-        return False
+        return None
     c = P.const(Fr(rn, rd))
     for m, k in p.t.items():
         if not m:
@@ -640,10 +650,10 @@ def _is_modsq(p):
             w = c + P({m: _norm_c(Fr(k) * sgn / (Fr(rn, rd)))})
             try:
                 if (w * conj(w) - p).is_zero_nf():
-                    return True
+                    return w
             except Unmodelled:
-                return False
-    return False
+                return None
+    return None
 
 
 def inv(p):
@@ -662,11 +672,16 @@ def inv(p):
             elif at.kind == "Inv":
                 out = out * at.args[0] ** e
             elif at.kind == "R":
-                # 1/sqrt(u) = sqrt(u)/u
-                out = out * (P.of_atom(at) * inv(at.args[0])) ** e
+                # 1/sqrt(u): Laurent exponent on the R atom (u != 0 is the generic-position side condition)
+                out = out * P.of_atom(at, -1) ** e
             else:
                 out = out * P.of_atom(_inv_atom(P.of_atom(at))) ** e
         return out * P({tuple(mono): 1})
+    if is_real(p) and 3 <= len(p.t) <= 4:
+        w = _modsq_witness(p)
+        if w is not None and not is_real(w):
+            # 1/|w|^2 = (1/w)(1/conj w): keeps denominators of complex sigmoids canonical
+            return P.of_atom(_inv_atom(w)) * P.of_atom(_inv_atom(conj(w)))
     return P.of_atom(_inv_atom(p))
 
 
@@ -701,6 +716,14 @@ def sqrt(p):
                         break
                 if ok:
                     return P({tuple(half): _norm_c(Fr(rn, rd))})
+    if len(p.t) > 1:
+        fs = _FACTORS.get(p.key())
+        if fs is not None:
+            # sqrt of a product of positive factors (the product was formed by exp from exactly these factors)
+            out = ONE
+            for f in fs:
+                out = out * sqrt(f)
+            return out
     if len(p.t) > 2 and is_real(p):
         q = poly_sqrt(p)
         if q is not None:
@@ -852,14 +875,22 @@ def split_ri(p):
     return P(A), P(B)
 
 
+_FACTORS = {}      # key of a product polynomial -> the factors it was built from (by exp); lets sqrt / log stay canonical
+
+
 def exp(p):
     p = to_P(p)
     if not p.t:
         return ONE
     A, B = split_ri(p)
     out = ONE
+    pieces = []
     for q, g in _loglin_terms(A):
-        out = out * _gen_pow("eh", g, q)
+        f = _gen_pow("eh", g, q)
+        pieces.append(f)
+        out = out * f
+    if len(pieces) > 1 and not B.t and len(out.t) > 1:
+        _FACTORS.setdefault(out.key(), pieces)
     for q, g in _loglin_terms(B):
         out = out * _gen_pow("ch", g, q)
     return out
@@ -1020,7 +1051,7 @@ def _depth(at, memo={}):
     return d
 
 
-def clear_inv(p, positive_only=False, limit=200000):
+def clear_inv(p, positive_only=False, limit=30000, max_arg_terms=None):
     """Multiply p by u^k for every Inv(u) atom occurring with maximal power k and
     rewrite Inv(u)^j u^k -> u^(k-j).  The result has no Inv atoms and is zero iff
     p is (u != 0 is the side condition of the atom).  With positive_only the
@@ -1028,6 +1059,8 @@ def clear_inv(p, positive_only=False, limit=200000):
     one is not."""
     for _ in range(64):
         best = _inv_atoms_in(p)
+        if max_arg_terms is not None:
+            best = {x: k for x, k in best.items() if len(_ATOMS[x].args[0].t) <= max_arg_terms}
         if not best:
             return p
         a = max(best, key=lambda x: _depth(_ATOMS[x]))
@@ -1058,14 +1091,90 @@ def clear_inv(p, positive_only=False, limit=200000):
     raise Unmodelled("clear_inv did not terminate")
 
 
-def is_zero(p):
+def _split_by(p, a):
+    groups = {}
+    for m, c in p.t.items():
+        j = 0
+        mm = []
+        for b, e in m:
+            if b == a:
+                j = e
+            else:
+                mm.append((b, e))
+        groups.setdefault(j, {})[tuple(mm)] = c
+    return groups
+
+
+def clear_rneg(p):
+    """Multiply by sqrt(u) for every R atom occurring with exponent -1 (sqrt(u) != 0 generic), so that
+    R^-1 * R -> 1 and R * R -> u; zero-equivalent, removes the R^-1 / R*Inv(u) ambiguity."""
+    for _ in range(64):
+        neg = None
+        for m in p.t:
+            for a, e in m:
+                if e < 0 and _ATOMS[a].kind == "R":
+                    neg = a
+                    break
+            if neg is not None:
+                break
+        if neg is None:
+            return p
+        p = p * P.of_atom(_ATOMS[neg])
+    raise Unmodelled("clear_rneg did not terminate")
+
+
+def _zero_indep(p, depth=0):
+    """Sufficient test: treat the deepest Inv atom as an independent symbol; every
+    coefficient of its powers must vanish (recursively).  Sound for proving zero."""
+    if not p.t:
+        return True
+    best = _inv_atoms_in(p)
+    if not best:
+        return not clear_rneg(p).t
+    if depth > 12:
+        return False
+    # split on the Inv atom with the largest argument (the "big" denominators first)
+    a = max(best, key=lambda x: (len(_ATOMS[x].args[0].t), _depth(_ATOMS[x])))
+    groups = _split_by(p, a)
+    if len(groups) == 1 and 0 not in groups:
+        (j, t), = groups.items()
+        return _zero_indep(P(t), depth + 1)
+    for j, t in groups.items():
+        q = P(t)
+        if not q.t:
+            continue
+        if not _zero_indep(q, depth + 1):
+            return False
+    return True
+
+
+def is_zero(p, limit=30000):
     """True if p is identically zero modulo the atom relations; False if its
     cleared normal form is a non-zero polynomial (caller should confirm
     numerically before reporting anything)."""
     if not p.t:
         return True
-    q = clear_inv(p)
-    return not q.t
+    if not _inv_atoms_in(p):
+        return not clear_rneg(p).t
+    try:
+        if _zero_indep(p):
+            return True
+    except Unmodelled:
+        pass
+    # small denominators first: clear the Inv atoms with small arguments, then retry the split
+    q = clear_inv(p, limit=limit, max_arg_terms=4)
+    if not q.t:
+        return True
+    if not _inv_atoms_in(q):
+        return not clear_rneg(q).t
+    if _inv_atoms_in(q):
+        try:
+            if _zero_indep(q):
+                return True
+        except Unmodelled:
+            pass
+        q = clear_inv(q, limit=limit)
+    return not clear_rneg(q).t
 
 
 def equal(a, b):
